@@ -1,7 +1,7 @@
 import DracoProofs.Tagged
 import DracoProofs.SymbolComplete
 import Generated.Constants
-import DracoProofs.GeneratedFuncs
+import DracoProofs.GeneratedCore
 /-
   C08 — rANS symbol entropy coder (`EncodeSymbols` / `DecodeSymbols`,
   src/draco/compression/entropy/{ans.h, rans_symbol_*.h, symbol_encoding.cc, symbol_decoding.cc}).
